@@ -17,6 +17,7 @@ import (
 	"errors"
 	"fmt"
 	"io"
+	"net"
 	"os"
 	"os/exec"
 	"strconv"
@@ -45,11 +46,14 @@ const (
 )
 
 type c16Step struct {
-	op       string // send | read | write
+	op       string // send | read | write | duplex | idle | cwrite
 	data     []byte
 	cuts     []int
-	maxReads int // read: 0 = until drained
-	readN    int // read: 0 = Transport.Read() (Args.ReadSize), else Transport.ReadN(readN)
+	data2    []byte // duplex: what the peer sends meanwhile; cwrite: the second writer's bytes
+	cuts2    []int
+	idle     time.Duration // idle: how long the read stays blocked before the peer sends
+	maxReads int           // read: 0 = until drained
+	readN    int           // read: 0 = Transport.Read() (Args.ReadSize), else Transport.ReadN(readN)
 }
 
 type c16Case struct {
@@ -65,6 +69,17 @@ type c16Case struct {
 	class     string
 	multi     bool // some payload exceeds the read size
 	escapeOff bool // openssh: EscapeChar=none is among the ssh arguments
+	v         c16Variant
+}
+
+// c16Variant selects option / peer flavours of a case.
+type c16Variant struct {
+	auth     string   // standard: "" password, "kbd" keyboard-interactive
+	cipher   string   // standard: WithStandardTransportExtraCiphers([cipher]); the server offers only it
+	kex      string   // standard: WithStandardTransportExtraKexs([kex]); the server offers only it
+	sshArgs  []string // openssh: WithSystemTransportOpenArgs
+	defaultN bool     // no WithTransportReadSize: the transport's default read size
+	reject   string   // open-abort scenarios: where the peer refuses (see c16OpenAbort)
 }
 
 type c16Read struct {
@@ -76,14 +91,17 @@ type c16Read struct {
 type c16Fail struct{ kind, detail, sig string }
 
 type c16Out struct {
-	events  []string
-	reads   []c16Read
-	peerGot []byte
-	written []byte
-	sent    []byte
-	fails   []c16Fail
-	aborted bool
-	dur     time.Duration
+	merges   [][3][]byte // concurrent writes: writer A, writer B, what the peer received
+	mergeOK  []bool      // the harness's own projection verdict per merge
+	prefixOK bool        // the ending stops reading early: the reads must be a prefix of the stream
+	events   []string
+	reads    []c16Read
+	peerGot  []byte
+	written  []byte
+	sent     []byte
+	fails    []c16Fail
+	aborted  bool
+	dur      time.Duration
 }
 
 func (o *c16Out) fail(kind, sig, f string, a ...any) {
@@ -112,6 +130,28 @@ var c16Exe string
 // c16TransportOpts returns the options that point transport kind at a fresh loopback peer, and a
 // function that (after Open was called / while it runs) yields the peer end of the connection.
 func c16TransportOpts(kind, mode string, opening []byte, seed uint64) ([]util.Option, func() (*c16Conn, error), error) {
+	return c16TransportOptsV(kind, mode, opening, seed, c16Variant{})
+}
+
+// c16TelnetTriples counts the DO/DONT/WILL/WONT triples of an opening (two-byte commands and the
+// escaped IAC IAC are skipped as units).
+func c16TelnetTriples(opening []byte) int {
+	k := 0
+	for i := 0; i < len(opening); {
+		switch {
+		case opening[i] != 255:
+			i++
+		case i+1 < len(opening) && opening[i+1] >= 251 && opening[i+1] <= 254:
+			k++
+			i += 3
+		default:
+			i += 2
+		}
+	}
+	return k
+}
+
+func c16TransportOptsV(kind, mode string, opening []byte, seed uint64, v c16Variant) ([]util.Option, func() (*c16Conn, error), error) {
 	switch kind {
 	case "telnet":
 		l, err := sim.Listen()
@@ -131,12 +171,20 @@ func c16TransportOpts(kind, mode string, opening []byte, seed uint64) ([]util.Op
 			if err == nil {
 				// the client answers every DO/DONT/WILL/WONT triple with one triple while it opens
 				// (property C15's subject); take the answers off the wire before the script starts
-				k := 0
-				for i := 0; i+2 < len(opening); i++ {
-					if opening[i] == 255 && opening[i+1] >= 251 && opening[i+1] <= 254 {
-						k++
-						i += 2
+				k := c16TelnetTriples(opening)
+				if v.reject == "telnet-reset" || v.reject == "telnet-reset-negotiating" {
+					// the peer drops the connection in the middle of the negotiation
+					if tc, ok := c.(*net.TCPConn); ok {
+						_ = tc.SetLinger(0)
 					}
+					_ = c.Close()
+					ch <- acc{nil, errors.New("peer reset the connection")}
+					return
+				}
+				if v.reject == "telnet-eof" {
+					_ = c.Close()
+					ch <- acc{nil, errors.New("peer closed the connection")}
+					return
 				}
 				if k > 0 {
 					var rep []byte
@@ -150,6 +198,9 @@ func c16TransportOpts(kind, mode string, opening []byte, seed uint64) ([]util.Op
 			}
 			ch <- acc{c, err}
 		}()
+		if v.reject == "telnet-refused" { // nobody listens on the port
+			l.Close()
+		}
 		opts := []util.Option{options.WithPort(l.Port), options.WithTimeoutSocket(c16TelnetSocket)}
 		return opts, func() (*c16Conn, error) {
 			a := <-ch
@@ -160,13 +211,19 @@ func c16TransportOpts(kind, mode string, opening []byte, seed uint64) ([]util.Op
 			return &c16Conn{peer: a.c, cleanup: func() { _ = a.c.Close(); l.Close() }}, nil
 		}, nil
 	case "standard":
-		srv, err := sim.NewC16SSHServer(seed)
+		srv, err := sim.NewC16SSHServerOpts(seed, sim.C16SSHOpts{Auth: v.auth, Cipher: v.cipher, Kex: v.kex, Reject: v.reject})
 		if err != nil {
 			return nil, nil, err
 		}
 		opts := []util.Option{options.WithPort(srv.Port), options.WithAuthNoStrictKey(),
 			options.WithAuthUsername("u"), options.WithAuthPassword("p"),
 			options.WithTimeoutSocket(c16OpenBound), c16Netconf(mode == "netconf")}
+		if v.cipher != "" {
+			opts = append(opts, options.WithStandardTransportExtraCiphers([]string{v.cipher}))
+		}
+		if v.kex != "" {
+			opts = append(opts, options.WithStandardTransportExtraKexs([]string{v.kex}))
+		}
 		return opts, func() (*c16Conn, error) {
 			s, err := srv.NextSession(c16OpenBound)
 			if err != nil {
@@ -194,6 +251,9 @@ func c16TransportOpts(kind, mode string, opening []byte, seed uint64) ([]util.Op
 		opts := []util.Option{options.WithPort(srv.Port), options.WithAuthNoStrictKey(),
 			options.WithAuthUsername("u"), options.WithAuthPassword("p"),
 			options.WithTimeoutSocket(c16OpenBound), c16Netconf(mode == "netconf")}
+		if len(v.sshArgs) > 0 {
+			opts = append(opts, options.WithSystemTransportOpenArgs(v.sshArgs))
+		}
 		return opts, func() (*c16Conn, error) {
 			s, err := srv.NextSession(c16OpenBound)
 			if err != nil {
@@ -207,7 +267,11 @@ func c16TransportOpts(kind, mode string, opening []byte, seed uint64) ([]util.Op
 		if err != nil {
 			return nil, nil, err
 		}
-		opts := []util.Option{options.WithSystemTransportOpenBin(c16Exe),
+		bin := c16Exe
+		if v.reject == "no-such-binary" {
+			bin = "/nonexistent/c16-ssh"
+		}
+		opts := []util.Option{options.WithSystemTransportOpenBin(bin),
 			options.WithSystemTransportOpenArgsOverride([]string{"C16", "-replay", "relay:" + l.Addr(), "--"}),
 			c16Netconf(mode == "netconf")}
 		return opts, func() (*c16Conn, error) {
@@ -227,9 +291,29 @@ func c16TransportOpts(kind, mode string, opening []byte, seed uint64) ([]util.Op
 
 var c16ReadSizes = []int{1, 2, 3, 7, 16, 64, 100, 255, 1024, 4096, 8192, 65535, 65536}
 
+// c16Seqs are byte sequences that terminals, telnet, ssh and line disciplines give a meaning to.
+var c16Seqs = [][]byte{
+	{'\r', '\n'}, {'\r', 0}, {'\n', '\r'}, {'\r'}, {'\n'}, {0}, {0, 0}, {255}, {255, 255}, {255, 255, 255},
+	{255, 251, 1}, {255, 253, 3}, {255, 254, 24}, {255, 252, 31}, {255, 250, 24, 1, 255, 240}, {255, 241}, {255, 249}, {255, 244},
+	{3}, {4}, {0x1a}, {0x1c}, {0x11}, {0x13}, {0x15}, {0x17}, {0x16, 3}, {0x7f}, {8}, {0x1b, '[', 'A'}, {0x1b, ']', '0', ';', 'x', 7},
+	{'\n', '~', '.'}, {'\r', '~', '~'}, {'\n', '~', 'C'}, {'~', '?'}, {'\\', '\n'}, {0xc3, 0xbf}, {0xe2, 0x82}, {0x80}, {0xfe, 0xff},
+}
+
 func c16Payload(r *vlib.Rng, size int) []byte {
 	b := make([]byte, size)
-	switch r.Intn(4) {
+	switch r.Intn(6) {
+	case 4: // every byte value, in a random rotation / stride, repeated to the size
+		start, stride := r.Intn(256), []int{1, 3, 7, 255, 129}[r.Intn(5)]
+		for i := range b {
+			b[i] = byte(start + i*stride)
+		}
+		return b
+	case 5: // sequences with a meaning to some layer, back to back
+		for i := 0; i < size; {
+			q := c16Seqs[r.Intn(len(c16Seqs))]
+			i += copy(b[i:], q)
+		}
+		return b
 	case 0: // bytes that terminals, telnet and line disciplines treat specially
 		special := []byte{0x00, 0x03, 0x04, 0x08, 0x0a, 0x0d, 0x11, 0x13, 0x15, 0x1a, 0x1b, 0x1c, 0x7f, 0xff, 0xfe, 0xfd, 0xfb, 0xf0, 0xfa, '\\', '~', '.'}
 		for i := range b {
@@ -246,10 +330,20 @@ func c16Payload(r *vlib.Rng, size int) []byte {
 	return b
 }
 
+// c16AbsSizes are sizes around the buffers in between: pty line / queue (4096), socket and ssh
+// packet / window steps (32768, 65536).
+var c16AbsSizes = []int{255, 256, 257, 4095, 4096, 4097, 32767, 32768, 32769, 65535, 65536, 65537}
+
 func c16Size(r *vlib.Rng, n int, res *vlib.Result) int {
 	var s int
 	var cl string
-	switch r.Intn(7) {
+	switch r.Intn(9) {
+	case 7, 8:
+		s = c16AbsSizes[r.Intn(len(c16AbsSizes))]
+		if n < 16 && s > 4097 { // keep the number of reads of one case in the thousands
+			s = c16AbsSizes[r.Intn(6)]
+		}
+		cl = fmt.Sprintf("abs:%d", s)
 	case 0:
 		s, cl = 1, "1"
 	case 1:
@@ -311,13 +405,38 @@ func c16GenCase(kind, mode string, n int, class string, seed uint64, res *vlib.R
 	r := vlib.NewRng(seed)
 	cs := &c16Case{kind: kind, mode: mode, n: n, class: class,
 		line: fmt.Sprintf("case %s %s %d %s %d", kind, mode, n, class, seed)}
+	switch kind {
+	case "standard":
+		if r.Chance(1, 3) {
+			cs.v.auth = "kbd"
+		}
+		if r.Chance(1, 3) {
+			cs.v.cipher = r.Pick([]string{"aes128-ctr", "aes256-ctr", "aes128-gcm@openssh.com", "aes256-gcm@openssh.com", "chacha20-poly1305@openssh.com", "aes128-cbc", "3des-cbc"})
+		}
+		if r.Chance(1, 4) {
+			cs.v.kex = r.Pick([]string{"curve25519-sha256", "ecdh-sha2-nistp256", "ecdh-sha2-nistp384", "diffie-hellman-group14-sha256", "diffie-hellman-group14-sha1"})
+		}
+	case "openssh":
+		if r.Chance(1, 2) {
+			cs.v.sshArgs = [][]string{{"-c", "aes128-ctr"}, {"-o", "Ciphers=chacha20-poly1305@openssh.com"}, {"-o", "IPQoS=none", "-o", "Ciphers=aes256-gcm@openssh.com"}}[r.Intn(3)]
+		}
+	}
+	if class == "default-n" {
+		cs.v.defaultN = true
+	}
 	if kind == "telnet" {
-		// opening: negotiation triples interleaved with data (no IAC in data; only DO/DONT/WILL/WONT
-		// triples, the part of the negotiation C15 shows to be handled)
+		// opening: negotiation triples interleaved with data, two-byte commands (IAC NOP / GA: dropped)
+		// and escaped IAC IAC (the data byte 255); what the parser makes of it is C15's subject, here it
+		// only decides what the initial buffer holds
 		segs := r.Intn(5)
 		withData := r.Chance(3, 4)
 		for i := 0; i < segs; i++ {
-			if r.Chance(2, 3) {
+			if withData && r.Chance(1, 5) {
+				cs.opening = append(cs.opening, 255, 255)
+				cs.ib = append(cs.ib, 255)
+			} else if r.Chance(1, 6) {
+				cs.opening = append(cs.opening, 255, []byte{241, 249, 246}[r.Intn(3)])
+			} else if r.Chance(2, 3) {
 				cs.opening = append(cs.opening, c16TelnetNeg[r.Intn(len(c16TelnetNeg))]...)
 			} else if withData {
 				d := r.Bytes(r.Range(1, 12), []byte("Login:Username Password\r\n#> abc0123"))
@@ -359,8 +478,59 @@ func c16GenCase(kind, mode string, n int, class string, seed uint64, res *vlib.R
 	} else {
 		nsteps := r.Range(2, 6)
 		unread := false
+		wcuts := func(d []byte) []int { // one Write call, or many small ones
+			if r.Chance(1, 2) {
+				return nil
+			}
+			return c16Cuts(r, len(d))
+		}
 		for i := 0; i < nsteps; i++ {
-			switch r.Intn(5) {
+			switch r.Intn(9) {
+			case 5: // both directions at once
+				d, d2 := c16Payload(r, c16Size(r, n, nil)), pay()
+				cs.steps = append(cs.steps, c16Step{op: "duplex", data: d, cuts: wcuts(d), data2: d2, cuts2: c16Cuts(r, len(d2))})
+				unread = false
+				if res != nil {
+					res.Count("step:duplex")
+				}
+			case 6: // a read that stays blocked for a while (longer than telnet's negotiation deadlines), then data
+				d := pay()
+				idle := time.Duration(r.Range(350, 700)) * time.Millisecond
+				if kind != "telnet" && r.Chance(2, 3) {
+					idle = time.Duration(r.Range(60, 250)) * time.Millisecond
+				}
+				cs.steps = append(cs.steps, c16Step{op: "idle", data: d, cuts: c16Cuts(r, len(d)), idle: idle})
+				unread = true
+				if res != nil {
+					res.Count("step:idle-then-data")
+				}
+			case 7: // two goroutines write at the same time
+				if kind == "standard" {
+					// x/crypto/ssh's channel Write is not safe for concurrent use (it reuses one packet
+					// buffer per channel) and Standard.Write does not serialise: concurrent writes corrupt
+					// the ssh stream and end the session. The property does not speak about concurrent
+					// client writes; the observation is recorded by c16ConcurrentProbe, not judged here.
+					d := c16Payload(r, c16Size(r, n, nil))
+					cs.steps = append(cs.steps, c16Step{op: "write", data: d, cuts: c16Cuts(r, len(d))})
+					continue
+				}
+				a, b := c16Payload(r, c16min(c16Size(r, n, nil), 70000)), c16Payload(r, c16min(c16Size(r, n, nil), 70000))
+				for i := range a {
+					a[i] &= 0x7f
+				}
+				for i := range b {
+					b[i] |= 0x80
+				}
+				cs.steps = append(cs.steps, c16Step{op: "cwrite", data: a, cuts: c16Cuts(r, len(a)), data2: b, cuts2: c16Cuts(r, len(b))})
+				if res != nil {
+					res.Count("step:concurrent-writes")
+				}
+			case 8:
+				d := c16Payload(r, c16Size(r, n, nil))
+				cs.steps = append(cs.steps, c16Step{op: "write", data: d, cuts: c16Cuts(r, len(d))})
+				if res != nil {
+					res.Count("step:write-in-pieces")
+				}
 			case 0, 1:
 				d := pay()
 				cs.steps = append(cs.steps, c16Step{op: "send", data: d, cuts: c16Cuts(r, len(d))})
@@ -382,8 +552,21 @@ func c16GenCase(kind, mode string, n int, class string, seed uint64, res *vlib.R
 			}
 		}
 	}
-	cs.ending = []string{"drain-close", "block-close", "block-exit", "send-exit"}[r.Intn(4)]
-	if kind == "openssh" && (cs.ending == "block-exit" || cs.ending == "send-exit") {
+	cs.ending = []string{"drain-close", "block-close", "block-exit", "send-exit", "exit-then-write", "close-unread"}[r.Intn(6)]
+	if cs.ending == "close-unread" {
+		cs.endData = c16Payload(r, c16Size(r, n, res))
+	}
+	if cs.ending == "exit-then-write" {
+		cs.endData = c16Payload(r, c16Size(r, n, nil))
+		if kind == "system" && len(cs.endData) > 1024 {
+			// with the ssh child gone nothing drains the pty any more: once its queues (a few KiB in
+			// raw mode) are full a Write on the blocking-mode master blocks for good — the same root
+			// as known finding C16-F17 (a stalled Write on the pty master is never released). The
+			// property speaks about reads; the write here stays within what the pty still takes.
+			cs.endData = cs.endData[:1024]
+		}
+	}
+	if kind == "openssh" && (cs.ending == "block-exit" || cs.ending == "send-exit" || cs.ending == "exit-then-write") {
 		// when the server ends the session the ssh client writes its own "Connection to … closed."
 		// onto the pty before it exits; peer-exit endings are exercised with the stand-in relay
 		cs.ending = "block-close"
@@ -526,13 +709,15 @@ func c16RunCase(cs *c16Case, seed uint64) *c16Out {
 	o := &c16Out{}
 	defer func() { o.dur = time.Since(t0) }()
 	log, _ := logging.NewInstance()
-	opts, peerOf, err := c16TransportOpts(cs.kind, cs.mode, cs.opening, seed)
+	opts, peerOf, err := c16TransportOptsV(cs.kind, cs.mode, cs.opening, seed, cs.v)
 	if err != nil {
 		o.fail("machinery", "c16:peer-setup", "peer setup: %v", err)
 		o.aborted = true
 		return o
 	}
-	opts = append(opts, options.WithTransportReadSize(cs.n))
+	if !cs.v.defaultN {
+		opts = append(opts, options.WithTransportReadSize(cs.n))
+	}
 	tr, err := transport.NewTransport(log, "127.0.0.1", c16TType(cs.kind), opts...)
 	if err != nil {
 		o.fail("oracle", "c16:"+cs.kind+":new-transport", "NewTransport: %v", err)
@@ -546,6 +731,17 @@ func c16RunCase(cs *c16Case, seed uint64) *c16Out {
 	}
 	rd := c16NewReader(tr)
 	defer close(rd.req)
+	if !tr.IsAlive() {
+		o.fail("oracle", "c16:"+cs.kind+":not-alive-after-open", "Transport.IsAlive() is false right after a successful Open")
+	}
+	if cs.v.defaultN {
+		cs.n = tr.Args.ReadSize // what Read() will use
+		if cs.n < 1 {
+			o.fail("oracle", "c16:"+cs.kind+":default-read-size", "default read size %d", cs.n)
+			o.aborted = true
+			return o
+		}
+	}
 	if cs.kind == "openssh" {
 		// in-channel login by hand: wait for the client's password prompt on the pty, answer it
 		if !c16ReadUntil(rd, []byte("password: "), c16OpenBound) {
@@ -661,6 +857,90 @@ func c16RunCase(cs *c16Case, seed uint64) *c16Out {
 		return true
 	}
 
+	// doWrite: the client writes data (one Write call, or one per piece), the peer must receive
+	// exactly these bytes. With data2 the peer sends data2 meanwhile and the client reads it while it
+	// writes (both directions at once).
+	doWrite := func(data []byte, cuts []int, data2 []byte, cuts2 []int) bool {
+		if cs.kind == "openssh" && data2 == nil {
+			// the OpenSSH client writes to its tty with blocking writes: while output the client
+			// has not read fills the pty, ssh does not read its input either. scrapligo's channel
+			// always reads concurrently; the script reads what is outstanding before it writes.
+			if !drain(0, 0) {
+				return false
+			}
+		}
+		if cs.kind == "openssh" && !cs.escapeOff {
+			// the ssh client interprets '~' at the start of a line (escape character) unless
+			// EscapeChar=none is among its arguments
+			data = c16NoEscape(data)
+		}
+		if len(cuts) == 0 {
+			cuts = []int{len(data)}
+		}
+		if data2 != nil {
+			peerSend(data2, cuts2)
+		}
+		rest := data
+		for _, c := range cuts {
+			o.events = append(o.events, "w"+vlib.Hex(rest[:c]))
+			rest = rest[c:]
+		}
+		o.written = append(o.written, data...)
+		werr := make(chan error, 1)
+		go func() {
+			d := data
+			for _, c := range cuts {
+				if e := tr.Write(d[:c]); e != nil {
+					werr <- e
+					return
+				}
+				d = d[c:]
+			}
+			werr <- nil
+		}()
+		// delivery bound: 10 s plus 10 s per 256 KiB (a mebibyte through ssh and a pty on a loaded
+		// machine is many thousand small reads and writes)
+		wb := c16ReadBound + time.Duration(len(data)>>18)*10*time.Second
+		type pgr struct {
+			b   []byte
+			err error
+		}
+		pgc := make(chan pgr, 1)
+		go func() {
+			b, err := c16ReadFull(conn.peer, len(data), wb)
+			pgc <- pgr{b, err}
+		}()
+		if data2 != nil && !drain(0, 0) {
+			return false
+		}
+		pr := <-pgc
+		pg, err := pr.b, pr.err
+		o.peerGot = append(o.peerGot, pg...)
+		if err != nil {
+			i := c16FirstDiff(pg, data[:c16min(len(pg), len(data))])
+			if i < 0 {
+				i = len(pg)
+			}
+			o.fail("oracle", "c16:"+cs.kind+":write-lost", "client wrote %d byte(s) in %d call(s), peer received %d: %v; first difference at offset %d: got %s, written %s (preceded by %s)",
+				len(data), len(cuts), len(pg), err, i, c16Short(pg[i:]), c16Short(data[i:]), c16Short(data[c16max(0, i-8):i]))
+			o.aborted = true
+			return false
+		}
+		select {
+		case e := <-werr:
+			if e != nil {
+				o.fail("oracle", "c16:"+cs.kind+":write-error", "Write(%d bytes) returned %v", len(data), e)
+				o.aborted = true
+				return false
+			}
+		case <-time.After(wb):
+			o.fail("oracle", "c16:"+cs.kind+":write-stuck", "Write(%d bytes) did not return within %v although the peer received them", len(data), wb)
+			o.aborted = true
+			return false
+		}
+		return true
+	}
+
 	for _, st := range cs.steps {
 		switch st.op {
 		case "send":
@@ -670,52 +950,101 @@ func c16RunCase(cs *c16Case, seed uint64) *c16Out {
 				return o
 			}
 		case "write":
-			if cs.kind == "openssh" {
-				// the OpenSSH client writes to its tty with blocking writes: while output the client
-				// has not read fills the pty, ssh does not read its input either. scrapligo's channel
-				// always reads concurrently; the script reads what is outstanding before it writes.
-				if !drain(0, 0) {
-					return o
-				}
+			if !doWrite(st.data, st.cuts, nil, nil) {
+				return o
 			}
-			if cs.kind == "openssh" && !cs.escapeOff {
-				// the ssh client interprets '~' at the start of a line (escape character) unless
-				// EscapeChar=none is among its arguments; that defect has its own session check,
-				// the byte-pipe histories stay clear of it
-				st.data = c16NoEscape(st.data)
+		case "duplex":
+			if !doWrite(st.data, st.cuts, st.data2, st.cuts2) {
+				return o
 			}
-			o.events = append(o.events, "w"+vlib.Hex(st.data))
-			o.written = append(o.written, st.data...)
-			werr := make(chan error, 1)
-			go func(d []byte) { werr <- tr.Write(d) }(st.data)
-			// a large write may need the client to keep reading (echo-free peers do not, but the pty
-			// relay and ssh windows may push back): read concurrently what is outstanding
-			// delivery bound: 10 s plus 10 s per 256 KiB (a mebibyte through ssh and a pty on a loaded
-			// machine is many thousand small reads and writes)
-			wb := c16ReadBound + time.Duration(len(st.data)>>18)*10*time.Second
-			pg, err := c16ReadFull(conn.peer, len(st.data), wb)
-			o.peerGot = append(o.peerGot, pg...)
-			if err != nil {
-				i := c16FirstDiff(pg, st.data[:c16min(len(pg), len(st.data))])
-				if i < 0 {
-					i = len(pg)
-				}
-				o.fail("oracle", "c16:"+cs.kind+":write-lost", "client wrote %d byte(s), peer received %d: %v; first difference at offset %d: got %s, written %s (preceded by %s)",
-					len(st.data), len(pg), err, i, c16Short(pg[i:]), c16Short(st.data[i:]), c16Short(st.data[c16max(0, i-8):i]))
+		case "idle":
+			if !drain(0, 0) {
+				return o
+			}
+			rd.start(0)
+			if r, ok := rd.wait(st.idle); ok {
+				o.events = append(o.events, fmt.Sprintf("r%d:%d", cs.n, len(r.data)))
+				o.reads = append(o.reads, r)
+				o.fail("oracle", "c16:"+cs.kind+":idle-read-returned", "a Read on an idle open connection returned (%s, err=%v) after less than %v although the peer sent nothing", c16Short(r.data), r.err, st.idle)
 				o.aborted = true
 				return o
 			}
-			select {
-			case e := <-werr:
-				if e != nil {
-					o.fail("oracle", "c16:"+cs.kind+":write-error", "Write(%d bytes) returned %v", len(st.data), e)
+			o.events = append(o.events, fmt.Sprintf("r%d:0", cs.n)) // model: block
+			o.reads = append(o.reads, c16Read{blocked: true})
+			peerSend(st.data, st.cuts)
+			r, ok := rd.wait(c16ReadBound)
+			if !ok {
+				o.fail("oracle", "c16:"+cs.kind+":read-stuck", "a Read blocked for %v did not return within %v after the peer sent %d byte(s)", st.idle, c16ReadBound, len(st.data))
+				o.aborted = true
+				return o
+			}
+			o.events = append(o.events, fmt.Sprintf("r%d:%d", cs.n, len(r.data)))
+			o.reads = append(o.reads, r)
+			got = append(got, r.data...)
+			if r.err != nil || len(r.data) == 0 {
+				o.fail("oracle", "c16:"+cs.kind+":read-error", "the Read blocked for %v returned (%d bytes, err=%v) when the peer sent %d byte(s)", st.idle, len(r.data), r.err, len(st.data))
+				o.aborted = true
+				return o
+			}
+		case "cwrite":
+			if cs.kind == "openssh" && !cs.escapeOff {
+				continue
+			}
+			if !drain(0, 0) {
+				return o
+			}
+			total := len(st.data) + len(st.data2)
+			werr := make(chan error, 2)
+			wr := func(d []byte, cuts []int) {
+				for _, c := range cuts {
+					if e := tr.Write(d[:c]); e != nil {
+						werr <- e
+						return
+					}
+					d = d[c:]
+				}
+				werr <- nil
+			}
+			go wr(st.data, st.cuts)
+			go wr(st.data2, st.cuts2)
+			pg, err := c16ReadFull(conn.peer, total, c16ReadBound)
+			// what the peer received is what the model is told was written (the interleaving is the
+			// implementation's choice); the judgement is on the two projections
+			o.events = append(o.events, "w"+vlib.Hex(pg))
+			o.written = append(o.written, pg...)
+			o.peerGot = append(o.peerGot, pg...)
+			o.merges = append(o.merges, [3][]byte{st.data, st.data2, pg})
+			o.mergeOK = append(o.mergeOK, false)
+			if err != nil {
+				o.fail("oracle", "c16:"+cs.kind+":write-lost", "two goroutines wrote %d + %d byte(s) concurrently, peer received %d: %v", len(st.data), len(st.data2), len(pg), err)
+				o.aborted = true
+				return o
+			}
+			for k := 0; k < 2; k++ {
+				select {
+				case e := <-werr:
+					if e != nil {
+						o.fail("oracle", "c16:"+cs.kind+":write-error", "concurrent Write returned %v", e)
+					}
+				case <-time.After(c16ReadBound):
+					o.fail("oracle", "c16:"+cs.kind+":write-stuck", "a concurrent Write did not return within %v although the peer received everything", c16ReadBound)
 					o.aborted = true
 					return o
 				}
-			case <-time.After(wb):
-				o.fail("oracle", "c16:"+cs.kind+":write-stuck", "Write(%d bytes) did not return within %v although the peer received them", len(st.data), wb)
-				o.aborted = true
-				return o
+			}
+			var pa, pb []byte
+			for _, x := range pg {
+				if x < 0x80 {
+					pa = append(pa, x)
+				} else {
+					pb = append(pb, x)
+				}
+			}
+			o.mergeOK[len(o.mergeOK)-1] = bytes.Equal(pa, st.data) && bytes.Equal(pb, st.data2)
+			if !o.mergeOK[len(o.mergeOK)-1] {
+				ia, ib := c16FirstDiff(pa, st.data), c16FirstDiff(pb, st.data2)
+				o.fail("oracle", "c16:"+cs.kind+":concurrent-write-mismatch", "two goroutines wrote %d (bytes < 0x80) and %d (bytes >= 0x80) byte(s) concurrently; what the peer received does not contain each writer's bytes once and in order (first difference: writer A offset %d, writer B offset %d; received %d)",
+					len(st.data), len(st.data2), ia, ib, len(pg))
 			}
 		}
 	}
@@ -790,6 +1119,71 @@ func c16RunCase(cs *c16Case, seed uint64) *c16Out {
 		blockedThen(closeForce, "c", "Close(true)", "not-unblocked-by-close")
 	case "block-exit":
 		blockedThen(func() { closeQ(); peerWG.Wait(); sim.PeerExit(conn.peer) }, "x", "the peer went away", "not-unblocked-by-peer-exit")
+	case "exit-then-write":
+		// the peer goes away, then the client writes: the Write must return (with or without error),
+		// and so must the Read after it
+		if !drain(0, 0) {
+			return o
+		}
+		closeQ()
+		peerWG.Wait()
+		sim.PeerExit(conn.peer)
+		o.events = append(o.events, "x")
+		for k := 0; k < 3; k++ {
+			werr := make(chan error, 1)
+			go func() { werr <- tr.Write(cs.endData) }()
+			select {
+			case <-werr:
+			case <-time.After(c16ReadBound):
+				o.fail("oracle", "c16:"+cs.kind+":write-after-peer-exit-stuck", "Write(%d bytes) after the peer went away did not return within %v", len(cs.endData), c16ReadBound)
+				o.aborted = true
+				return o
+			}
+			if len(cs.endData) > 1<<16 {
+				break
+			}
+		}
+		rd.start(0)
+		r, ok := rd.wait(c16UnblockBound)
+		if !ok {
+			o.fail("oracle", "c16:"+cs.kind+":not-unblocked-by-peer-exit", "Read did not return within %v after the peer went away and the client wrote to it", c16UnblockBound)
+			o.aborted = true
+			return o
+		}
+		o.events = append(o.events, fmt.Sprintf("r%d:%d", cs.n, len(r.data)))
+		o.reads = append(o.reads, r)
+		if r.err == nil || len(r.data) != 0 {
+			o.fail("oracle", "c16:"+cs.kind+":after-exit-result", "after the peer went away Read returned (%s, err=%v); expected no data and an error", c16Short(r.data), r.err)
+		}
+	case "close-unread":
+		// the client closes with bytes of the peer still unread: every later Read returns at once, what
+		// it returns (some transports still hand out buffered bytes) continues the stream, and an error
+		// comes after at most that many reads
+		if !drain(0, 0) {
+			return o
+		}
+		peerSend(cs.endData, []int{len(cs.endData)})
+		time.Sleep(30 * time.Millisecond)
+		o.events = append(o.events, "c")
+		o.prefixOK = true
+		closeForce()
+		for k := 0; ; k++ {
+			rd.start(0)
+			r, ok := rd.wait(c16UnblockBound)
+			if !ok {
+				o.fail("oracle", "c16:"+cs.kind+":read-after-close-stuck", "Read after Close(true) with %d unread byte(s) did not return within %v", target()-len(got), c16UnblockBound)
+				o.aborted = true
+				return o
+			}
+			got = append(got, r.data...)
+			if r.err != nil {
+				break
+			}
+			if len(r.data) == 0 || k > len(cs.endData)+2 {
+				o.fail("oracle", "c16:"+cs.kind+":read-after-close-no-error", "Reads after Close(true) keep returning without error (%d reads, last %d bytes)", k+1, len(r.data))
+				break
+			}
+		}
 	case "send-exit":
 		peerSend(cs.endData, []int{len(cs.endData)})
 		closeQ()
@@ -823,6 +1217,9 @@ func c16RunCase(cs *c16Case, seed uint64) *c16Out {
 	}
 	// spec, evaluated directly: the reads returned exactly initial buffer ++ sent, once, in order
 	want := append(append([]byte{}, cs.ib...), o.sent...)
+	if o.prefixOK && len(got) <= len(want) {
+		want = want[:len(got)]
+	}
 	if !bytes.Equal(got, want) {
 		i := c16FirstDiff(got, want)
 		o.fail("oracle", "c16:"+cs.kind+":data-mismatch", "reads returned %d byte(s), the peer sent %d (+%d initial); first difference at offset %d: got %s want %s",
@@ -900,7 +1297,7 @@ func c16Compare(c *ctx, cs *c16Case, o *c16Out, ans string) {
 		if !bytes.Equal(mout, o.peerGot) {
 			res.Fail("correspondence", cs.line, fmt.Sprintf("bytes handed to the peer: transport %d, model %d", len(o.peerGot), len(mout)), "c16:"+cs.kind+":out-differs")
 		}
-		if len(left) != 0 && (cs.ending == "block-close" || cs.ending == "block-exit" || cs.ending == "send-exit" || cs.ending == "drain-close") {
+		if len(left) != 0 && cs.ending != "close-unread" {
 			res.Fail("correspondence", cs.line, fmt.Sprintf("model has %d byte(s) left after the run drained the transport", len(left)), "c16:"+cs.kind+":left-differs")
 		}
 	}
@@ -948,6 +1345,14 @@ func runC16(c *ctx) {
 		c16Lock(c, f[1] == "1", f[2] == "1", f[3] == "1")
 		return
 	}
+	if strings.HasPrefix(c.replay, "open-abort ") {
+		c16ReplayOpenAbort(c, c.replay)
+		return
+	}
+	if strings.HasPrefix(c.replay, "names") {
+		c16Names(c)
+		return
+	}
 	if strings.HasPrefix(c.replay, "stall ") {
 		c16ReplayStall(c, c.replay)
 		return
@@ -985,6 +1390,9 @@ func runC16(c *ctx) {
 					n = r.Range(1, 65536)
 				}
 				class := "mixed"
+				if i%12 == 5 { // no read-size option: the transport's own default
+					class, n = "default-n", 8192
+				}
 				if k.kind == "telnet" && i%3 == 0 {
 					class = "long-initial"
 					if n > 4096 {
@@ -1040,6 +1448,77 @@ func runC16(c *ctx) {
 		_ = os.WriteFile(p, []byte(strings.Join(lines, "\n")+"\n"), 0o644)
 	}
 	ans := c.ask(lines)
+	// concurrent writes: the model's verdict on what the peer received (a merge of the two writers'
+	// streams, decided through the two projections)
+	var mlines, mcase []string
+	var mok []bool
+	for i, cs := range cases {
+		for k, m := range outs[i].merges {
+			mlines = append(mlines, fmt.Sprintf("c16 merge %s %s %s", vlib.Hex(m[0]), vlib.Hex(m[1]), vlib.Hex(m[2])))
+			mcase = append(mcase, cs.line)
+			mok = append(mok, outs[i].mergeOK[k])
+		}
+	}
+	for i, a := range c.ask(mlines) {
+		if (a == "1") != mok[i] {
+			res.Fail("machinery", mcase[i], "concurrent writes: the model's merge verdict ("+a+") differs from the harness's projection check", "c16:model-vs-spec-merge")
+		}
+		res.Count("merge-verdicts")
+	}
+	// which byte values travelled in which direction over which transport
+	seenS, seenW := map[string]*[256]bool{}, map[string]*[256]bool{}
+	for i, cs := range cases {
+		if seenS[cs.kind] == nil {
+			seenS[cs.kind], seenW[cs.kind] = &[256]bool{}, &[256]bool{}
+		}
+		for _, x := range outs[i].sent {
+			seenS[cs.kind][x] = true
+		}
+		for _, x := range outs[i].peerGot {
+			seenW[cs.kind][x] = true
+		}
+		if bytes.IndexByte(outs[i].peerGot, 0xff) >= 0 {
+			res.Count("written-has-0xff:" + cs.kind)
+		}
+		if bytes.IndexByte(outs[i].sent, 0xff) >= 0 {
+			res.Count("sent-has-0xff:" + cs.kind)
+		}
+		v := cs.v
+		if v.auth != "" {
+			res.Count("variant:auth=" + v.auth)
+		}
+		if v.cipher != "" {
+			res.Count("variant:cipher=" + v.cipher)
+		}
+		if v.kex != "" {
+			res.Count("variant:kex=" + v.kex)
+		}
+		if len(v.sshArgs) > 0 {
+			res.Count("variant:ssh-extra-args")
+		}
+	}
+	if c.replay == "" {
+		bv := ""
+		for _, k := range []string{"system", "standard", "telnet", "openssh"} {
+			if seenS[k] == nil {
+				continue
+			}
+			ns, nw := 0, 0
+			for x := 0; x < 256; x++ {
+				if seenS[k][x] {
+					ns++
+				}
+				if seenW[k][x] {
+					nw++
+				}
+			}
+			bv += fmt.Sprintf(" %s: %d/256 towards the client, %d/256 towards the peer;", k, ns, nw)
+			if ns < 256 || nw < 256 {
+				res.Fail("machinery", "byte-values "+k, fmt.Sprintf("generator did not cover every byte value over %s (%d / %d of 256)", k, ns, nw), "c16:generator-byte-values")
+			}
+		}
+		res.Note("byte values delivered:%s", bv)
+	}
 	res.Note("phases: byte-pipe cases %v, model %v", tRun.Sub(tStart).Round(time.Millisecond), time.Since(tRun).Round(time.Millisecond))
 	var slowest time.Duration
 	for i, cs := range cases {
@@ -1076,6 +1555,9 @@ func runC16(c *ctx) {
 		return
 	}
 	c16Internal(c)
+	c16Names(c)
+	c16OpenAborts(c)
+	c16ConcurrentProbe(c)
 	tL := time.Now()
 	for _, l := range [][3]bool{{true, true, false}, {true, false, true}, {true, true, true},
 		{false, true, false}, {false, false, true}, {false, true, true}} {
